@@ -4,7 +4,9 @@ CONSTANTS
   MaxK = @@MAXK@@
   Alias = FALSE
   ReplySubst = FALSE
+  NetipText = FALSE
+  ValClasses = TRUE
 INIT Init
 NEXT Next
-INVARIANTS TypeOK Intact ReplyIntact Complete NoDev
+INVARIANTS TypeOK Intact ReplyIntact Complete NoDev OneSessionPerDest VdnsRecognised
 CHECK_DEADLOCK TRUE
